@@ -93,7 +93,7 @@ def execute(run):
     binary = build_driver()
     info = driver_info(binary)
     extra = {'circles': info['circles']}
-    n = 500 if run.tier == 'quick' else 5000
+    n = 2000 if run.tier == 'quick' else 6000
     k = 16 if run.tier == 'quick' else 32
     shards = [{'name': 'scale-%d' % i, 'n': n, 'anchor': i == 0} for i in range(k)]
     run.run_shards(binary, shards, extra=extra)
